@@ -571,6 +571,25 @@ class Env:
         if h == 'VecDeque': return s.ret(st, Agg('VecDeque'))
         if h == 'Option': return s.ret(st, NONE)
         if h == 'String': return s.ret(st, Agg('String', [Opaque('str:""')]))
+        v = s.default_value(ci['selfty'])
+        return None if v is None else s.ret(st, v)
+
+    def default_value(s, tytext):
+        """Default::default() of a std type given as text (containers of defaults), None if unknown"""
+        t = tytext.strip(); h = type_head(t)
+        m = re.match(r'^[^<]*<(.*)>$', t); inner = split_top(m.group(1), ',')[0].strip() if m else None
+        if h in ('usize', 'u64', 'isize', 'i64'): return I(0, 64)
+        if h in ('u32', 'i32'): return I(0, 32)
+        if h == 'bool': return False
+        if h in ('Vec', 'VecDeque'): return Agg(h)
+        if h == 'Option': return NONE
+        if h == 'Atomic' and inner: return Agg('Atomic', [s.default_value(inner)])
+        if h in ('AtomicUsize', 'AtomicIsize', 'AtomicU64'): return Agg('Atomic', [I(0, 64)])
+        if h == 'AtomicBool': return Agg('Atomic', [False])
+        if h == 'Mutex' and inner:
+            iv = s.default_value(inner)
+            return None if iv is None else Agg('Mutex', [iv, Opaque('unlocked'), False])
+        if h == 'HashMap': return Agg('HashMap')
         return None
 
     def t_Clone__clone(s, M, st, th, ci, a):
